@@ -160,17 +160,23 @@ class Recorder:
         if inspect.isgeneratorfunction(fn):
             @functools.wraps(fn)
             def wrapper(*a, **k):
+                # mirrors the by-count windows of the profiler's generator wrapper (send / throw / close forwarded, value returned)
                 g = fn(*a, **k)
-                x = None
+                method, x = g.send, None
                 while True:
                     rec.enable_by_count()
                     try:
-                        item = g.send(x)
-                    except StopIteration:
-                        return
+                        item = method(x)
+                    except StopIteration as e:
+                        return e.value
                     finally:
                         rec.disable_by_count()
-                    x = (yield item)
+                    try:
+                        x = (yield item)
+                    except BaseException as e:   # noqa
+                        method, x = g.throw, e
+                    else:
+                        method = g.send
         elif inspect.iscoroutinefunction(fn):
             @functools.wraps(fn)
             async def wrapper(*a, **k):
